@@ -19,6 +19,7 @@ assert os.path.realpath(freephil.__file__).startswith(os.path.realpath(SRC) + os
     "freephil imported from %s, not from %s" % (freephil.__file__, SRC)
 )
 from freephil import tokenizer  # noqa: E402
+warnings.filterwarnings("ignore")  # freephil re-enables its deprecation warnings on import
 
 DRV = os.path.join(VERIF, "lean", ".lake", "build", "bin", "drv")
 AutoT = type(freephil.Auto)
